@@ -219,6 +219,10 @@ theorem buf_complete {T : Xfer} (hwf : T.WF) {j : Nat} {a : Apdu} (hs : IsSeg T 
 
 /-! ### in-order acceptance (any frame, genuine or not) -/
 
+/-- what the peer announced and what the transaction holds of the cache stay as they are -/
+def Body.sameCaps (b b' : Body) : Prop :=
+  b'.maxApdu = b.maxApdu ∧ b'.hasDI = b.hasDI ∧ b'.maxSegs = b.maxSegs ∧ b'.sra = b.sra
+
 /-- **append_in_order (client, SEGMENTED_CONFIRMATION).**  A segment frame of a
     ComplexAck is appended iff its sequence number is `(last+1) % 256`; any
     other one leaves buffer, last sequence number, state and window unchanged
@@ -231,14 +235,15 @@ theorem client_append_in_order {now : Nat} {k : Key} {b : Body} {a c : Apdu} {w 
     (h : clientSegmentedConfirmation cfg now k b a = (r, outs)) :
     (a.seq = (b.lastSeq + 1) % 256 →
       (a.mor = true → ∃ b', r = some b' ∧ b'.ctx = some { c with data := c.data ++ a.data } ∧
-          b'.lastSeq = (b.lastSeq + 1) % 256 ∧ b'.st = b.st ∧ b'.window = b.window ∧
+          b'.lastSeq = (b.lastSeq + 1) % 256 ∧ b'.st = b.st ∧ b'.window = b.window ∧ b.sameCaps b' ∧
           ∀ o ∈ outs, o = .send k.peer (mkSegAck false false k.id ((b.lastSeq + 1) % 256) w)) ∧
       (a.mor = false → r = none ∧
           outs = [.send k.peer (mkSegAck false false k.id ((b.lastSeq + 1) % 256) w),
                   .confirm k.peer { c with data := c.data ++ a.data }])) ∧
     (a.seq ≠ (b.lastSeq + 1) % 256 →
       ∃ b', r = some b' ∧ b'.ctx = b.ctx ∧ b'.lastSeq = b.lastSeq ∧ b'.st = b.st ∧
-        b'.window = b.window ∧ outs = [.send k.peer (mkSegAck true false k.id b.lastSeq w)]) := by
+        b'.window = b.window ∧ b.sameCaps b' ∧
+        outs = [.send k.peer (mkSegAck true false k.id b.lastSeq w)]) := by
   unfold clientSegmentedConfirmation at h
   simp only [hty, hseg, hw, hc] at h
   simp at h
@@ -246,10 +251,10 @@ theorem client_append_in_order {now : Nat} {k : Key} {b : Body} {a c : Apdu} {w 
   · rename_i hs
     split at h
     · rename_i hm
-      simp only [Prod.mk.injEq] at h; obtain ⟨rfl, rfl⟩ := h; simp [hs, hm]
-    · split at h <;> (simp only [Prod.mk.injEq] at h; obtain ⟨rfl, rfl⟩ := h; simp_all)
+      simp only [Prod.mk.injEq] at h; obtain ⟨rfl, rfl⟩ := h; simp [hs, hm, Body.sameCaps]
+    · split at h <;> (simp only [Prod.mk.injEq] at h; obtain ⟨rfl, rfl⟩ := h; simp_all [Body.sameCaps])
   · rename_i hs
-    simp only [Prod.mk.injEq] at h; obtain ⟨rfl, rfl⟩ := h; simp [hs, hw, hc]
+    simp only [Prod.mk.injEq] at h; obtain ⟨rfl, rfl⟩ := h; simp [hs, hw, hc, Body.sameCaps]
 
 /-- **append_in_order (server, SEGMENTED_REQUEST).**  The same for the segments
     of a ConfirmedRequest; the negative ack names the start of the window
@@ -261,14 +266,15 @@ theorem server_append_in_order {now : Nat} {k : Key} {b : Body} {a c : Apdu} {w 
     (h : serverSegmentedRequest cfg now k b a = (r, outs)) :
     (a.seq = (b.lastSeq + 1) % 256 →
       (a.mor = true → ∃ b', r = some b' ∧ b'.ctx = some { c with data := c.data ++ a.data } ∧
-          b'.lastSeq = (b.lastSeq + 1) % 256 ∧ b'.st = b.st ∧ b'.window = b.window ∧
+          b'.lastSeq = (b.lastSeq + 1) % 256 ∧ b'.st = b.st ∧ b'.window = b.window ∧ b.sameCaps b' ∧
           ∀ o ∈ outs, o = .send k.peer (mkSegAck false true k.id ((b.lastSeq + 1) % 256) w)) ∧
-      (a.mor = false → (∃ b', r = some b' ∧ b'.st = .awaitResp) ∧
+      (a.mor = false → (∃ b', r = some b' ∧ b'.st = .awaitResp ∧ b.sameCaps b') ∧
           outs = [.send k.peer (mkSegAck false true k.id ((b.lastSeq + 1) % 256) w),
                   .indicate k.peer { c with data := c.data ++ a.data }])) ∧
     (a.seq ≠ (b.lastSeq + 1) % 256 →
       ∃ b', r = some b' ∧ b'.ctx = b.ctx ∧ b'.lastSeq = b.lastSeq ∧ b'.st = b.st ∧
-        b'.window = b.window ∧ outs = [.send k.peer (mkSegAck true true k.id b.initSeq w)]) := by
+        b'.window = b.window ∧ b.sameCaps b' ∧
+        outs = [.send k.peer (mkSegAck true true k.id b.initSeq w)]) := by
   unfold serverSegmentedRequest at h
   simp only [hty, hseg, hw, hc] at h
   simp at h
@@ -276,10 +282,10 @@ theorem server_append_in_order {now : Nat} {k : Key} {b : Body} {a c : Apdu} {w 
   · rename_i hs
     split at h
     · rename_i hm
-      simp only [Prod.mk.injEq] at h; obtain ⟨rfl, rfl⟩ := h; simp [hs, hm]
-    · split at h <;> (simp only [Prod.mk.injEq] at h; obtain ⟨rfl, rfl⟩ := h; simp_all)
+      simp only [Prod.mk.injEq] at h; obtain ⟨rfl, rfl⟩ := h; simp [hs, hm, Body.sameCaps]
+    · split at h <;> (simp only [Prod.mk.injEq] at h; obtain ⟨rfl, rfl⟩ := h; simp_all [Body.sameCaps])
   · rename_i hs
-    simp only [Prod.mk.injEq] at h; obtain ⟨rfl, rfl⟩ := h; simp [hs, hw, hc]
+    simp only [Prod.mk.injEq] at h; obtain ⟨rfl, rfl⟩ := h; simp [hs, hw, hc, Body.sameCaps]
 
 /-- duplicates never extend the buffer: a frame repeating the last accepted
     sequence number (or any earlier one of the window) is not the next one -/
